@@ -36,6 +36,12 @@ def run(ctx, rep):
     rep.guarded("R13-ESC", lambda: r_esc(sh, rep))
     rep.rule("R13-COMMENTS", "comments popped off the formatter's cursor into a local are used on every following path", floor=5)
     rep.guarded("R13-COMMENTS", lambda: r_comments(sh, rep))
+    rep.rule("R13-ORDINAL", "tuple-index suffixes (`.1st`, `.11th`) are printed with the function the lexer validates them with", floor=2)
+    rep.guarded("R13-ORDINAL", lambda: r_ordinal(sh, rep))
+    rep.rule("R13-ELIDE", "the formatter leaves out a validator's `else` handler only when it is exactly what the parser would synthesise", floor=3)
+    rep.guarded("R13-ELIDE", lambda: r_elide(sh, rep))
+    rep.rule("R13-NODROP", "no formatter method drops elements of a syntax list it prints (filter / dedup / take / skip adaptors are reviewed one by one)", floor=4)
+    rep.guarded("R13-NODROP", lambda: r_nodrop(sh, rep))
 
 
 def _binops(sh):
@@ -382,3 +388,124 @@ def r_comments(sh, rep):
                     ok = _used_on_every_path(b["stmts"][i + 1 :], name)
                     rep.check(ok, "R13-COMMENTS", "%s#%s#printed-on-every-path" % (q, name), sh.loc(FMT, st), "%s takes the comments before this position off the cursor (`let %s = self.%s(..)`) but a path through the following code never uses `%s`: those comments are dropped from the formatted program and, the cursor having advanced, are not printed anywhere else" % (q, name, st["init"]["m"], name), sample={"popper": st["init"]["m"]})
     return n
+
+
+# ---------------------------------------------------------------------------------------------------------
+# R13-ORDINAL: printer and lexer agree on the ordinal suffix of every tuple position
+# ---------------------------------------------------------------------------------------------------------
+def _ordinal_suffix_calls(sh, rel, node):
+    """`Ordinal(..).suffix()` / `Ordinal::<T>(..).suffix()` calls"""
+    out = []
+    for n in walk(node):
+        if n.get("k") == "MethodCall" and n["m"] == "suffix" and n["recv"].get("k") == "Call" and re.sub(r"::<.*>$", "", sh.nsrc(rel, n["recv"]["f"])).split("::")[-1] == "Ordinal":
+            out.append(n)
+    return out
+
+
+def r_ordinal(sh, rep):
+    """The lexer accepts `.Nxx` only when xx is the English ordinal suffix of N as computed by ordinal::Ordinal::suffix
+    (11th, 12th, 13th, 111th, but 21st, 22nd). The formatter prints TupleIndex from the bare index, so it must compute
+    the suffix with that same function: any private re-implementation has to get the teens right to stay parseable."""
+    lex = [n for q, f in all_fns(sh.file(LEX)) if "body" in f for n in _ordinal_suffix_calls(sh, LEX, f["body"])]
+    rep.check(len(lex) >= 1, "R13-ORDINAL", "lexer#validates-with-Ordinal::suffix", LEX, "the lexer no longer validates tuple-index suffixes with ordinal::Ordinal::suffix (anchor): the sibling rule below has no reference", sample={"calls": len(lex)})
+    f = find_method(sh.file(FMT), "Formatter", "expr")
+    en = find_enum(sh.file(EXP), "UntypedExpr")
+    m = find_enum_match(f, "UntypedExpr", {v["name"] for v in en["variants"]}, min_hits=3)
+    arms = [arm for v, arm, alt in arm_table(m) if v == "TupleIndex"] if m else []
+    if not arms:
+        raise AnchorMissing("TupleIndex arm of Formatter::expr")
+    mine = _ordinal_suffix_calls(sh, FMT, arms[0]["body"])
+    # the suffix may come from a helper: follow one level of free-function / method calls defined in format.rs
+    if not mine:
+        for c in walk(arms[0]["body"]):
+            nm = last(call_name(c) or "") if c.get("k") == "Call" else (c["m"] if c.get("k") == "MethodCall" else None)
+            if nm:
+                for q, g in all_fns(sh.file(FMT)):
+                    if q.split("::")[-1] == nm and "body" in g:
+                        mine += _ordinal_suffix_calls(sh, FMT, g["body"])
+    rep.check(bool(mine), "R13-ORDINAL", "formatter#TupleIndex#same-suffix-function", sh.loc(FMT, arms[0]), "Formatter::expr prints a tuple index without ordinal::Ordinal::suffix, the function the lexer checks the suffix against: positions whose suffix the two compute differently (11th, 12th, 13th, 111th …) are printed in a form the lexer rejects", sample={"calls": len(mine)})
+
+
+# ---------------------------------------------------------------------------------------------------------
+# R13-ELIDE: what the formatter omits must be what the parser re-creates
+# ---------------------------------------------------------------------------------------------------------
+def _ctor_variants(node, enum):
+    return {last(n["p"]) for n in walk(node) if n.get("k") in ("Struct", "Path", "Call") and (n.get("p") or (n["f"].get("p") if n.get("k") == "Call" and n["f"].get("k") == "Path" else "") or "").startswith(enum + "::") for n in [n if n.get("p") else n["f"]]}
+
+
+def r_elide(sh, rep):
+    """Formatter::definition_validator leaves the `else` handler out when all purposes are handled and the handler
+    `is_default_fallback()`; the parser then puts UntypedValidator::default_fallback() back. Round-trip needs the predicate
+    to accept nothing but what default_fallback() builds: body = UntypedExpr::fail(None, ..) = a bare ErrorTerm. A
+    predicate that also accepts `fail @"reason"` (Trace) deletes the user's handler and its message."""
+    fa = sh.file(AST)
+    pred = find_method(fa, "UntypedFunction", "is_default_fallback")
+    dflt = find_method(fa, "UntypedValidator", "default_fallback")
+    rep.touched(AST, "UntypedFunction::is_default_fallback")
+    rep.touched(AST, "UntypedValidator::default_fallback")
+    # what the parser synthesises: the `body:` initialiser of default_fallback
+    body_init = None
+    for n in walk(dflt["body"]):
+        if n.get("k") == "Struct" and last(n["p"]) == "Function":
+            for fi in n["fields"]:
+                if fi["name"] == "body":
+                    body_init = fi["e"]
+    if body_init is None:
+        raise AnchorMissing("`body:` initialiser in UntypedValidator::default_fallback")
+    synth = set()
+    if body_init.get("k") == "Call" and last(call_name(body_init) or "") == "fail" and body_init["args"] and sh.nsrc(AST, body_init["args"][0]) == "None":
+        ff = find_method(sh.file(EXP), "UntypedExpr", "fail")
+        # the branch taken for reason = None: the else of `if let Some(..) = reason`
+        for n in walk(ff["body"]):
+            if n.get("k") == "If" and n.get("else") is not None and "Some" in sh.nsrc(EXP, n["cond"]):
+                top = n["else"]
+                synth = {last(x["p"]) for x in walk(top) if x.get("k") in ("Struct", "Path") and (x.get("p") or "").startswith("UntypedExpr::")}
+    else:
+        synth = {last(x["p"]) for x in walk(body_init) if x.get("k") in ("Struct", "Path") and (x.get("p") or "").startswith("UntypedExpr::")}
+    rep.check(len(synth) == 1, "R13-ELIDE", "default_fallback#body-variant", sh.loc(AST, dflt), "could not read the single expression form default_fallback() gives the synthesised handler's body (found %s)" % sorted(synth), sample={"synthesised": sorted(synth)})
+    accepted = set()
+    tests = [n for n in walk(pred["body"]) if n.get("k") == "Macro" and n.get("path") == "matches" and n.get("e") is not None and sh.nsrc(AST, n["e"]).endswith("self.body")]
+    for t in tests:
+        for alt in pat_alts(t["pat"]):
+            h = pat_head(alt)
+            accepted.add(last(h) if h else "_")
+    rep.check(len(tests) == 1 and accepted == synth, "R13-ELIDE", "is_default_fallback#body-accepts-exactly-the-synthesised-form", sh.loc(AST, pred), "is_default_fallback accepts bodies %s but the parser synthesises %s: a handler the formatter drops is re-created as something else" % (sorted(accepted), sorted(synth)), sample={"accepted": sorted(accepted), "synthesised": sorted(synth)})
+    src = sh.nsrc(AST, pred["body"])
+    rep.check("ArgName::Discarded" in src and "VALIDATOR_ELSE" in src, "R13-ELIDE", "is_default_fallback#argument-and-name", sh.loc(AST, pred), "is_default_fallback must also require the single discarded argument and the `else` name that default_fallback() builds")
+    # the elision site itself: the only use of the predicate in the formatter guards the printing of the fallback
+    uses = [n for q, f in all_fns(sh.file(FMT)) if "body" in f for n in walk(f["body"]) if n.get("k") == "MethodCall" and n["m"] == "is_default_fallback"]
+    rep.check(len(uses) == 1, "R13-ELIDE", "formatter#one-elision-site", sh.loc(FMT, uses[0]) if uses else FMT, "expected exactly one elision decision on is_default_fallback in the formatter (found %d)" % len(uses), nontrivial=False)
+
+
+# ---------------------------------------------------------------------------------------------------------
+# R13-NODROP: adaptors that can drop list elements inside the formatter are enumerated and reviewed
+# ---------------------------------------------------------------------------------------------------------
+DROPPERS = {"filter", "filter_map", "dedup", "dedup_by", "dedup_by_key", "unique", "unique_by", "take", "take_while", "skip_while", "step_by", "truncate", "retain", "skip"}
+NODROP_REVIEWED = {
+    ("Formatter::module", "filter"): (1, "drops empty *documents* (sections with nothing to print), not syntax elements"),
+    ("comments_before", "skip_while"): (1, "skips leading empty-line markers before the first comment; comments themselves are kept"),
+    ("Formatter::pipeline", "skip"): (1, "`first()` is printed separately just above; skip(1) walks the rest"),
+    ("Formatter::pipe_capture_right_hand_side", "skip"): (1, "the first argument is the pipe's hole, elided by construction of a capture; the parser re-inserts it"),
+}
+
+
+def r_nodrop(sh, rep):
+    """Every list in the syntax tree (imports, arguments, clauses, fields …) must be printed element for element. The
+    formatter builds documents with iterator chains; an adaptor that can drop elements (filter, dedup_by, take, skip …)
+    in such a chain is either one of the reviewed idioms below or a place where formatting loses syntax."""
+    fj = sh.file(FMT)
+    per = {}
+    where = {}
+    for q, f in all_fns(fj):
+        if "body" not in f:
+            continue
+        for n in walk(f["body"]):
+            if n.get("k") == "MethodCall" and n["m"] in DROPPERS:
+                per[(q, n["m"])] = per.get((q, n["m"]), 0) + 1
+                where.setdefault((q, n["m"]), n)
+    for key, cnt in sorted(per.items()):
+        allowed, why = NODROP_REVIEWED.get(key, (0, ""))
+        rep.check(cnt <= allowed, "R13-NODROP", "%s#%s" % key, sh.loc(FMT, where[key]), "%s uses `.%s(..)` %d time(s), %d reviewed: an element-dropping adaptor in a printer — `%s` — loses syntax unless the parser is known to put the dropped elements back" % (key[0], key[1], cnt, allowed, sh.nsrc(FMT, where[key])[-90:]), why_ok=why, sample={"fn": key[0], "adaptor": key[1], "count": cnt})
+    for key, (allowed, why) in NODROP_REVIEWED.items():
+        if key not in per:
+            rep.info("R13-NODROP reviewed entry %s no longer present (informational)" % (key,))
